@@ -209,7 +209,7 @@ func findKernels(d *detInfo) (*kernels, error) {
 // C08
 
 func propC08(w *World, r *Report) {
-	r.Explanation = "Decided clause (non-interference, by index ranges and value flow): (N1) every pixel element read in code reachable from the detector's Detect has row in [E, H-E) and column in [E, W-E) — symbolic intervals over start/rowStop/columnStop with start=EdgePixels, rowStop=ResY-EdgePixels, columnStop=ResX-EdgePixels, under E>=0, 2E<W,H; (N2) whole-row / slice copies are position preserving (same row, same interior column range; or border-row replication inside the background; or Frame.Copy); (N3) every store into the background frame takes its value from an interior read of the input or from the background itself; (N4) in the differencing kernels each loaded pixel occurs in the stored result only under max(pixel, tempThresh); (N5) background and threshold updates are control dependent on dynamic-thresh; (N6) the processor uses the frame only as argument of Detect and of sink writes. Rule: induction-variable intervals with a closed-form Farkas certificate + term occurrence analysis."
+	r.Explanation = "Decided clause (non-interference, by index ranges and value flow): (N1) every pixel element read in code reachable from the detector's Detect has row in [E, H-E) and column in [E, W-E) — symbolic intervals over start/rowStop/columnStop with start=EdgePixels, rowStop=ResY-EdgePixels, columnStop=ResX-EdgePixels, under E>=0, 2E<W,H; (N2) whole-row / slice copies are position preserving (same row, same interior column range; or border-row replication inside the background; or Frame.Copy); (N3) every store into the background frame takes its value from an interior read of the input or from the background itself; (N4) in the differencing kernels each loaded pixel occurs in the stored result only under max(pixel, tempThresh); (N5) background and threshold updates are control dependent on dynamic-thresh; (N6) the processor uses the frame only as argument of Detect and of sink writes. Rule: induction-variable intervals with a closed-form Farkas certificate + term occurrence analysis. Ranges over a whole frame or row are given the full height / width and decided as not interior."
 	r.RuleText = "obligation per pixel access / copy / store site in the detector (functions reachable from Detect)"
 	r.Assumptions = []string{"E >= 0 and 2E < min(W,H) (the statement's preconditions)", "cptvframe.Frame.Copy copies rows position by position (its body is checked once per run)",
 		"debugTracker.update only logs (named exception of N4: values passed to it do not flow back)"}
@@ -790,6 +790,7 @@ func checkPixelsChanged(w *World, r *Report, d *detInfo, k *kernels, fam string)
 		// a gating / bookkeeping step extracted from the selection logic into a method of the detector
 		return !kernel[c] && stage(c) && isPtrTo(c.Signature.Recv().Type(), d.T)
 	})
+	paths = framesNonNil(paths)
 	if !complete {
 		r.Unknown(fam+"6", fn.Name(), w.Pos(fn.Pos()), "selection logic is not loop-free")
 		return
